@@ -453,6 +453,7 @@ type sConn struct {
 	accepted   bool      // handed to the server by Accept
 	serving    bool      // the server has started reading it and has not closed it
 	everServed bool
+	dataRead   bool // the server has consumed bytes the client sent
 	onRead     func()
 	onClose    func()
 }
@@ -533,6 +534,9 @@ func (c *sConn) Read(p []byte) (int, error) {
 	}
 	n := copy(p, c.buf)
 	c.buf = c.buf[n:]
+	if n > 0 {
+		c.dataRead = true
+	}
 	return n, nil
 }
 
@@ -560,6 +564,14 @@ func (c *sConn) Close() error {
 		}
 	}
 	return nil
+}
+
+// VerifOrder gives rewritten map iterations over connections a deterministic order.
+func (c *sConn) VerifOrder() int {
+	if t, ok := c.remote.(*net.TCPAddr); ok {
+		return t.Port*256 + int(t.IP[len(t.IP)-1])
+	}
+	return 0
 }
 
 func (c *sConn) LocalAddr() net.Addr                { return &net.TCPAddr{IP: net.ParseIP("127.0.0.1"), Port: 2049} }
